@@ -78,25 +78,27 @@ type Obligation struct {
 }
 
 type VC struct {
-	blockReach map[*ssa.BasicBlock]string // path condition of each block executed so far (merged blocks)
-	covers     []*Obligation
-	droppedInv map[*Clause]bool
-	notes      []string
-	prog       *Program
-	u          *Universe
-	fn         *ssa.Function
-	key        string
-	contract   *Contract
-	lines      []string
-	obls       []*Obligation
-	compSort   map[string]Sort
-	compType   map[string]types.Type // Go type of the values stored in the component
-	nver       int
-	nfresh     int
-	vals       map[ssa.Value]Term
-	tuples     map[ssa.Value][]Term
-	addrs      map[ssa.Value]*Addr
-	closures   map[ssa.Value]*ssa.MakeClosure
+	curHeap     *Heap // the state before the instruction being executed (panic exits are judged in it)
+	inPanicExit bool
+	blockReach  map[*ssa.BasicBlock]string // path condition of each block executed so far (merged blocks)
+	covers      []*Obligation
+	droppedInv  map[*Clause]bool
+	notes       []string
+	prog        *Program
+	u           *Universe
+	fn          *ssa.Function
+	key         string
+	contract    *Contract
+	lines       []string
+	obls        []*Obligation
+	compSort    map[string]Sort
+	compType    map[string]types.Type // Go type of the values stored in the component
+	nver        int
+	nfresh      int
+	vals        map[ssa.Value]Term
+	tuples      map[ssa.Value][]Term
+	addrs       map[ssa.Value]*Addr
+	closures    map[ssa.Value]*ssa.MakeClosure
 
 	reach    map[*ssa.BasicBlock]string
 	heapOut  map[*ssa.BasicBlock]*Heap
@@ -208,9 +210,18 @@ func (vc *VC) define(prefix string, s Sort, term string) string {
 		return term
 	}
 	n := vc.freshName(prefix)
+	if iteConst && s != SBool && strings.HasPrefix(term, "(ite ") {
+		// a conditional value is named by a constant, not by a macro: solvers expand macros inside
+		// quantifier patterns, and a pattern with a conditional in it is rejected (z3 4.8) or ignored (z3 5)
+		vc.emit(fmt.Sprintf("(declare-const %s %s)", n, s))
+		vc.emit(fmt.Sprintf("(assert (= %s %s))", n, term))
+		return n
+	}
 	vc.emit(fmt.Sprintf("(define-fun %s () %s %s)", n, s, term))
 	return n
 }
+
+var iteConst = os.Getenv("GOVC_ITECONST") != ""
 
 func (vc *VC) assume(reach, f string) {
 	if f == "true" {
@@ -620,6 +631,9 @@ func (vc *VC) safety(kind string, reach, goal, src string) {
 		return
 	}
 	k := vc.counter(kind)
+	if goal != "true" && vc.curHeap != nil {
+		vc.onPanicExit(vc.curHeap, and(reach, not(goal)), fmt.Sprintf("%s.%d", kind, k))
+	}
 	if vc.panicOK == "true" {
 		return // panics maybe: not an obligation of this function
 	}
